@@ -1,10 +1,58 @@
-"""Bounded stand-in for C08 (see bounded/edits.py)."""
+"""Bounded stand-in for C08 (see bounded/edits.py), plus documents of an unsupported top-level shape: `set` / `rm` on them must be
+refused with KeyError or ValueError (no other exception type), and leave the document as it was."""
 from bounded import edits as E
+
+UNSUPPORTED = {
+    "identifier": "foo\n", "application": "f x\n", "list": "[ 1 2 ]\n", "string": '"s"\n', "integer": "1\n", "with-identifier-body": "with p;\nx\n",
+    "let-identifier-body": "let\n  x = y;\nin\nx\n", "lambda-identifier-body": "{ a }:\na\n", "if": "if c then { a = 1; } else { a = 2; }\n",
+    "two-expressions": "{ a = 1; }\n{ b = 2; }\n", "empty": "", "comment-only": "# nothing\n", "binary": "{ a = 1; } // { b = 2; }\n",
+}
+
+
+def unsupported_shapes():
+    from nix_manipulator import parse
+    from nix_manipulator.cli.manipulations import remove_value, set_value
+
+    vio = []
+    n = 0
+    for name, text in UNSUPPORTED.items():
+        for op, path in (("set", "a"), ("rm", "a"), ("set", "a.b"), ("set", "@v"), ("rm", "@v")):
+            n += 1
+            try:
+                src = parse(text)
+                before = src.rebuild()
+            except Exception:
+                continue
+            try:
+                out = set_value(src, path, "1") if op == "set" else remove_value(src, path)
+                sym = None  # accepted: whether the result is right is C05's business
+            except (KeyError, ValueError):
+                sym = None if src.rebuild() == before else "refused-edit-changed-document"
+            except Exception as e:
+                sym = f"refusal-is-neither-KeyError-nor-ValueError:{type(e).__name__}"
+            if sym:
+                sig = f"{sym}|top-level shape {name}"
+                vio.append(dict(check="unsupported-shape", signature=sig, what=f"C08 {sym}: {op} {path} on a document whose top level is: {name}", has_input=True,
+                                inputs={"shape": name, "op": op, "path": path},
+                                failing_input={"inputs": {"text": text, "op": op, "path": path}, "observed": sym, "origin": "bounded enumeration"}))
+    seen = {}
+    for v in vio:
+        seen.setdefault(v["signature"], v)
+    return dict(evaluations=n, distinct_nontrivial=n, rule="13 documents of an unsupported top-level shape x 5 edits: refusal by KeyError / ValueError only",
+                samples=[], exhaustive=True, violations=list(seen.values()), seconds=0.0)
 
 
 def run(tier, seed):
-    return E.run_edits("C08", tier, seed)
+    return E.merge(E.run_edits("C08", tier, seed), unsupported_shapes())
 
 
 def replay(v):
+    if "shape" in v["inputs"]:
+        r = unsupported_shapes()
+        hit = [x for x in r["violations"] if x["signature"] == v.get("signature")]
+        print(hit[:1] or "not reproduced")
+        if hit:
+            print("VIOLATION property=C08 replay=<given>")
+            return 1
+        return 0
     return E.replay_edit("C08", v)
